@@ -3,8 +3,9 @@
    compaction.go: the minimum-size test of pickForCompaction) AS TRANSLATED FROM THE CURRENT SOURCES
    (gen/Funcs.v) to the expressions used by the model (DB.v: write_record, track_del, add_delbytes,
    pick_rev).  Each statement quantifies over ALL values of the Go types involved. *)
-From Coq Require Import ZArith NArith Bool Lia.
-From Pogreb Require Import Base Record GoSem FuncsRecordCheck FuncsIndexCheck.
+From Coq Require Import ZArith NArith Bool Lia ZifyN ZifyNat ZifyBool.
+From Pogreb Require Import Base Record GoSem.
+Ltac Zify.zify_post_hook ::= Z.div_mod_to_equations.
 From Pogreb.gen Require Import Funcs.
 Open Scope Z_scope.
 
